@@ -8,36 +8,43 @@
      insts    the verifier objects: [n, k, named]  key name, key bits, named = a *Checker made by
               from_key (it also requires the packet's KeyLocator to lie under its key name);
               named = FALSE is a plain verify_* call with key k
-     Check(i, pn, pk)   verifier i is asked about a genuine packet signed with key pk whose KeyLocator is pn
+     Check(i, pn, pk, tam)   verifier i is asked about a packet signed with key pk whose KeyLocator lies under key
+              name pn; tam = the packet was altered in its signed portion afterwards (same signature value as the
+              genuine one, which this or another verifier may have seen before).  Tampered packets are
+              enumerated for the verifier's own key and name only (a foreign one is rejected on two grounds)
      log      the verdicts given so far
 
-   DevNameCache = TRUE models the deviation "imported keys memoised per class under the KeyLocator name":
-   TLC must then refute OwnKeyOnly (sensitivity witness of this module).                              *)
+   DevNameCache = TRUE models the deviation "imported keys memoised per class under the KeyLocator name",
+   DevVerdictCache = TRUE "a checker remembers the signature values it has accepted and skips the public-key
+   operation when it sees one again": TLC must refute OwnKeyOnly under each (sensitivity witnesses).     *)
 EXTENDS Integers, Sequences, TLC
-CONSTANTS NKey, NName, NInst, MaxChecks, DevNameCache, Plain    \* Plain: also enumerate plain verify_* calls
-VARIABLES insts, cache, log
-vars == <<insts, cache, log>>
+CONSTANTS NKey, NName, NInst, MaxChecks, DevNameCache, DevVerdictCache, Plain    \* Plain: also enumerate plain verify_* calls
+VARIABLES insts, cache, seen, log
+vars == <<insts, cache, seen, log>>
 
 InstSpace == [n : 1..NName, k : 1..NKey, named : IF Plain THEN BOOLEAN ELSE {TRUE}]
-InitWith(is) == insts = is /\ cache = [x \in 1..NName |-> 0] /\ log = <<>>
+InitWith(is) == insts = is /\ cache = [x \in 1..NName |-> 0] /\ seen = [x \in 1..Len(is) |-> {}] /\ log = <<>>
 \* without loss of generality the first verifier has name 1 and key 1
 Init == \E is \in [1..NInst -> InstSpace] : is[1].n = 1 /\ is[1].k = 1 /\ InitWith(is)
 
-Right(v, pn, pk) == v.k = pk /\ (v.named => v.n = pn)
-Verdict(i, pn, pk) ==
+Right(v, pn, pk, tam) == ~tam /\ v.k = pk /\ (v.named => v.n = pn)
+Verdict(i, pn, pk, tam) ==
   LET v == insts[i] IN
-  IF DevNameCache /\ v.named
-  THEN (v.n = pn) /\ (IF cache[pn] # 0 THEN cache[pn] ELSE v.k) = pk
-  ELSE Right(v, pn, pk)
-Check(i, pn, pk) ==
-  /\ Len(log) < MaxChecks /\ i \in 1..Len(insts) /\ pn \in 1..NName /\ pk \in 1..NKey
-  /\ log' = Append(log, [i |-> i, pn |-> pn, pk |-> pk, acc |-> Verdict(i, pn, pk)])
+  IF DevVerdictCache /\ v.named /\ v.n = pn /\ <<pn, pk>> \in seen[i] THEN TRUE
+  ELSE IF DevNameCache /\ v.named
+  THEN ~tam /\ (v.n = pn) /\ (IF cache[pn] # 0 THEN cache[pn] ELSE v.k) = pk
+  ELSE Right(v, pn, pk, tam)
+Check(i, pn, pk, tam) ==
+  /\ Len(log) < MaxChecks /\ i \in 1..Len(insts) /\ pn \in 1..NName /\ pk \in 1..NKey /\ tam \in BOOLEAN
+  /\ (tam => insts[i].n = pn /\ insts[i].k = pk)
+  /\ log' = Append(log, [i |-> i, pn |-> pn, pk |-> pk, tam |-> tam, acc |-> Verdict(i, pn, pk, tam)])
   /\ cache' = IF insts[i].named /\ insts[i].n = pn /\ cache[pn] = 0 THEN [cache EXCEPT ![pn] = insts[i].k] ELSE cache
+  /\ seen' = IF Verdict(i, pn, pk, tam) THEN [seen EXCEPT ![i] = @ \cup {<<pn, pk>>}] ELSE seen
   /\ UNCHANGED insts
-Next == \E i \in 1..NInst, pn \in 1..NName, pk \in 1..NKey : Check(i, pn, pk)
+Next == \E i \in 1..NInst, pn \in 1..NName, pk \in 1..NKey, tam \in BOOLEAN : Check(i, pn, pk, tam)
 Spec == Init /\ [][Next]_vars
 
-OwnKeyOnly == \A j \in 1..Len(log) : log[j].acc = Right(insts[log[j].i], log[j].pn, log[j].pk)
+OwnKeyOnly == \A j \in 1..Len(log) : log[j].acc = Right(insts[log[j].i], log[j].pn, log[j].pk, log[j].tam)
 W_SameNameOtherKey == ~(\E a, b \in 1..Len(log) : a < b /\ log[a].pn = log[b].pn /\ insts[log[a].i].named /\ insts[log[b].i].named
                            /\ insts[log[a].i].n = insts[log[b].i].n /\ insts[log[a].i].k # insts[log[b].i].k /\ log[a].acc /\ log[b].acc)
 =============================================================================
